@@ -12,7 +12,7 @@ import slice_s as S
 
 
 def gen_gather(rng):
-    sc = S.gen(rng, max_n=6, p_sel=0.0, p_fail=0.0)
+    sc = S.gen(rng, max_n=6, p_sel=0.0, p_fail=0.0, indexed_flags=False)
     sc["is_async"] = True
     for s in sc["specs"]:
         s["flag"] = None if (s["flag"] and s["flag"][0] == "c") else s["flag"]
@@ -86,7 +86,44 @@ def run_gather(sc, seed):
         return res
 
     R, outcome = control.run_controlled(lambda: asyncio.run(main()), control.Script(rng=random.Random(seed)), timeout=25)
+    LAST_RUN[0] = R
     return outcome
+
+
+LAST_RUN = [None]
+
+
+def run_of(args):
+    """Which of the concurrent runs a node entry belongs to: the run's own argument (1000 + j) is inside what it received."""
+    if isinstance(args, int) and not isinstance(args, bool) and args >= 1000:
+        return args
+    if isinstance(args, (tuple, list)):
+        for a in args:
+            r = run_of(a)
+            if r is not None:
+                return r
+    return None
+
+
+def sequential_overlaps(sc, R):
+    """C05 inside each of several CONCURRENT executions of one DAG: while a sequential node of run r is running (entry to
+    release), no other node OF RUN r is running; nodes of the other runs may.  Returns a list of problems."""
+    open_, out = {}, []      # key (ticket or ('inline', node)) -> (run, node)
+    for e in R.log:
+        if e[1] == "enter":
+            node, ticket, args = e[2], e[3], e[5]
+            r = run_of(args)
+            key = ticket if ticket is not None else ("inline", node)
+            if r is not None:
+                for (r2, n2) in open_.values():
+                    if r2 == r and (sc["specs"][node]["seq"] or sc["specs"][n2]["seq"]):
+                        out.append(dict(run=r, entered=node, running=n2,
+                                        sequential=[x for x in (node, n2) if sc["specs"][x]["seq"]]))
+            open_[key] = (r, node)
+        elif e[1] == "exit":
+            key = e[3] if len(e) > 3 and e[3] is not None else ("inline", e[2])
+            open_.pop(key, None)
+    return out
 
 
 def liveness(kinds, maxc, timeout=1.5, reconfigure=False):
